@@ -553,75 +553,13 @@ result from the asserted values. The values that pass an assertion are scalars (
 of the list): they are kept as `Tree`s, which cannot hold an address. One record per function
 (`ScalarFn`), one evaluator (`fnScalar`). -/
 
-/-- the type assertion on an evaluated argument -/
-inductive Want where
-  /-- `v.(string)`, else a panic -/
-  | str
-  /-- `asInt(v)`, else a panic -/
-  | int
-  /-- `v.([]any)` all of whose elements are strings, else a panic (`join`); the strings are read at once -/
-  | strs
-  /-- `string`'s format: a non-empty string, else a panic -/
-  | fmt
-  /-- any value (`int`, `float`): a list, map or path converts like nil (no conversion: nil) -/
-  | conv
-  /-- any value (`string`): a path prints as its text; a list or a map is printed by the SEN writer, which is
-  outside this model -/
-  | show
-  deriving DecidableEq
-
-def Val.toTreeS : Val → Tree
-  | .str s => .str s
-  | _ => .null
-
-def Want.admit (h : Heap) : Want → Val → Except Stop (List Tree)
-  | .str, .str s => .ok [.str s]
-  | .str, _ => .error .panic
-  | .int, .int i => .ok [.int i]
-  | .int, _ => .error .panic
-  | .strs, .aref a => if (h.arrAt a).all Val.isStr then .ok ((h.arrAt a).map Val.toTreeS) else .error .panic
-  | .strs, _ => .error .panic
-  | .fmt, .str s => if s.isEmpty then .error .panic else .ok [.str s]
-  | .fmt, _ => .error .panic
-  | .conv, .bool b => .ok [.bool b]
-  | .conv, .int i => .ok [.int i]
-  | .conv, .flt f => .ok [.flt f]
-  | .conv, .str s => .ok [.str s]
-  | .conv, _ => .ok [.null]
-  | .show, .null => .ok [.null]
-  | .show, .bool b => .ok [.bool b]
-  | .show, .int i => .ok [.int i]
-  | .show, .flt f => .ok [.flt f]
-  | .show, .str s => .ok [.str s]
-  | .show, .path p => .ok [.str (pathText p)]
-  | .show, .aref _ => .error .unmodelled
-  | .show, .mref _ => .error .unmodelled
-
-structure ScalarFn where
-  /-- the accepted numbers of arguments (any other: a panic before anything is evaluated) -/
-  arity : Nat → Bool
-  /-- the arguments are evaluated last first (`string` evaluates its format before its value) -/
-  swap : Bool
-  /-- the assertions, in evaluation order, for a call with `n` arguments -/
-  wants : Nat → List Want
-  /-- the result from the number of arguments and the asserted values; an array of texts for `split` -/
-  fin : Nat → List Tree → Except Stop Tree
-
 def wantLoop (ev : Arg → M Val) : List Arg → List Want → List Tree → M (List Tree)
   | a :: r, w :: ws, acc => do
     let v ← ev a
     let h ← getHeap
-    let xs ← liftE (w.admit h v)
+    let xs ← liftE (w.accept h v)
     wantLoop ev r ws (acc ++ xs)
   | _, _, acc => pure acc
-
-def Tree.toVal : Tree → Val
-  | .null => .null
-  | .bool b => .bool b
-  | .int i => .int i
-  | .flt f => .flt f
-  | .str s => .str s
-  | _ => .null
 
 /-- a scalar result as it is, an array result as a new array -/
 def retTree (t : Tree) : M Val :=
@@ -637,128 +575,6 @@ def fnScalar (g : ScalarFn) (ev : Arg → M Val) (args : List Arg) : M Val :=
     let acc ← wantLoop ev (if g.swap then args.reverse else args) (g.wants args.length) []
     let t ← liftE (g.fin args.length acc)
     retTree t
-
-def asciiOr (s : Bytes) (r : Except Stop Tree) : Except Stop Tree :=
-  if isAscii s then r else .error .unmodelled
-
-/-- asm/tolower.go, asm/toupper.go -/
-def sfCase (f : UInt8 → UInt8) : ScalarFn :=
-  { arity := fun n => n == 1, swap := false, wants := fun _ => [.str],
-    fin := fun _ acc => match acc with
-      | [.str s] => asciiOr s (.ok (.str (s.map f)))
-      | _ => .error .unmodelled }
-
-/-- asm/title.go: `[]rune(s)`, the first rune to upper case -/
-def sfTitle : ScalarFn :=
-  { arity := fun n => n == 1, swap := false, wants := fun _ => [.str],
-    fin := fun _ acc => match acc with
-      | [.str []] => .ok (.str [])
-      | [.str (c :: r)] => asciiOr (c :: r) (.ok (.str (upperB c :: r)))
-      | _ => .error .unmodelled }
-
-/-- asm/trim.go -/
-def sfTrim : ScalarFn :=
-  { arity := fun n => n == 1 || n == 2, swap := false, wants := fun _ => [.str, .str],
-    fin := fun _ acc => match acc with
-      | [.str s] => asciiOr s (.ok (.str (trimBoth isSpaceB s)))
-      | [.str s, .str cut] => asciiOr (s ++ cut) (.ok (.str (trimBoth (fun c => cut.contains c) s)))
-      | _ => .error .unmodelled }
-
-/-- asm/replace.go -/
-def sfReplace : ScalarFn :=
-  { arity := fun n => n == 3, swap := false, wants := fun _ => [.str, .str, .str],
-    fin := fun _ acc => match acc with
-      | [.str s, .str old, .str new] =>
-        if old.isEmpty then asciiOr s (.ok (.str (replaceAll s old new))) else .ok (.str (replaceAll s old new))
-      | _ => .error .unmodelled }
-
-/-- asm/split.go -/
-def sfSplit : ScalarFn :=
-  { arity := fun n => n == 2, swap := false, wants := fun _ => [.str, .str],
-    fin := fun _ acc => match acc with
-      | [.str s, .str sep] =>
-        if sep.isEmpty then asciiOr s (.ok (.arr ((splitOn s sep).map .str))) else .ok (.arr ((splitOn s sep).map .str))
-      | _ => .error .unmodelled }
-
-/-- `s[a:b]` on bytes: a panic unless `0 ≤ a ≤ b ≤ len` -/
-def sliceStr (s : Bytes) (a b : Int) : Except Stop Tree :=
-  if 0 ≤ a ∧ a ≤ b ∧ b ≤ (s.length : Int) then .ok (.str ((s.drop a.toNat).take (b - a).toNat)) else .error .panic
-
-/-- asm/substr.go: a negative start counts from the end (not before the beginning); one to three arguments pass
-the arity test although the second is always used (`args[1]`: index out of range with one argument) -/
-def sfSubstr : ScalarFn :=
-  { arity := fun n => 1 ≤ n && n ≤ 3, swap := false, wants := fun _ => [.str, .int, .int],
-    fin := fun _ acc =>
-      let start (s : Bytes) (i : Int) : Int :=
-        if i < 0 then (if wrap64 ((s.length : Int) + i) < 0 then 0 else wrap64 ((s.length : Int) + i)) else i
-      match acc with
-      | [.str _] => .error .panic
-      | [.str s, .int i] => sliceStr s (start s i) s.length
-      | [.str s, .int i, .int count] =>
-        if count < 0 then .ok (.str [])
-        else if (s.length : Int) < wrap64 (start s i + count) then sliceStr s (start s i) s.length
-        else sliceStr s (start s i) (wrap64 (start s i + count))
-      | _ => .error .unmodelled }
-
-def treeStrs : List Tree → List Bytes
-  | [] => []
-  | .str s :: r => s :: treeStrs r
-  | _ :: r => treeStrs r
-
-/-- asm/join.go: the strings of the list (read when the list has been evaluated), then the separator -/
-def sfJoin : ScalarFn :=
-  { arity := fun n => n == 1 || n == 2, swap := false, wants := fun _ => [.strs, .str],
-    fin := fun n acc =>
-      if n == 1 then .ok (.str (joinWith [] (treeStrs acc)))
-      else match acc.getLast? with
-        | some (.str sep) => .ok (.str (joinWith sep (treeStrs acc.dropLast)))
-        | _ => .error .unmodelled }
-
-/-- asm/int.go: an integer as it is, a float truncated, a text read by `strconv.ParseInt(s, 10, 64)`;
-anything else (and a text that is not an integer) gives nil -/
-def sfInt : ScalarFn :=
-  { arity := fun n => n == 1, swap := false, wants := fun _ => [.conv],
-    fin := fun _ acc => match acc with
-      | [.int i] => .ok (.int i)
-      | [.flt f] => (match f.trunc with | some i => .ok (.int i) | none => .error .unmodelled)
-      | [.str s] => (match parseIntText s with | some i => .ok (.int i) | none => .ok .null)
-      | _ => .ok .null }
-
-/-- the texts `strconv.ParseFloat` is modelled on: an optional sign and one to fifteen decimal digits (exact),
-and texts without any digit that cannot spell an infinity or a NaN (not a number: nil) -/
-def floatOfText (s : Bytes) : Except Stop Tree :=
-  let signed := s.head? = some 45 || s.head? = some 43
-  let body := if signed then s.drop 1 else s
-  if !body.isEmpty && body.all isDigit && body.length ≤ 15 then
-    .ok (.flt (.fin (s.head? = some 45) (natOfDigits body) 0))
-  else if !s.any isDigit && !(body.head? = some 105 || body.head? = some 73 || body.head? = some 110 || body.head? = some 78) then
-    .ok .null
-  else .error .unmodelled
-
-/-- asm/float.go -/
-def sfFloat : ScalarFn :=
-  { arity := fun n => n == 1, swap := false, wants := fun _ => [.conv],
-    fin := fun _ acc => match acc with
-      | [.int i] => .ok (.flt (Flt.ofInt i))
-      | [.flt f] => .ok (.flt f)
-      | [.str s] => floatOfText s
-      | _ => .ok .null }
-
-/-- asm/string.go: `%d`, `%g`, the string itself, `%v` of nil, a boolean or a path; with a format argument
-(`fmt.Sprintf` with any format) the result is outside the model -/
-def sfString : ScalarFn :=
-  { arity := fun n => n == 1 || n == 2, swap := true,
-    wants := fun n => if n == 1 then [.show] else [.fmt, .show],
-    fin := fun n acc =>
-      if n != 1 then .error .unmodelled
-      else match acc with
-        | [.null] => .ok (.str b!"<nil>")
-        | [.bool true] => .ok (.str b!"true")
-        | [.bool false] => .ok (.str b!"false")
-        | [.int i] => .ok (.str (fmtD i))
-        | [.flt f] => (match fmtG f with | some t => .ok (.str t) | none => .error .unmodelled)
-        | [.str s] => .ok (.str s)
-        | _ => .error .unmodelled }
 
 /-! ## list functions -/
 
